@@ -170,6 +170,9 @@ pub fn run(tier: Tier) -> i32 {
     let depth = tier.pick(2, 3);
     let mut st = vec![];
     for s in starts() {
+        if s.is_mixed() {
+            continue; // histories mixing consolidation on and off are C04's and C06's
+        }
         let mut off = s.clone();
         off.consolidation = false;
         off.name = format!("{}(consolidation off)", off.name);
